@@ -27,7 +27,7 @@ tvars == <<vars, l, stack, cfgl, txs>>
 Slot(ob, m) == [objs |-> ob, kv |-> m]
 (* the open multi-operation transaction (TxBegin .. TxEnd): its own view of objs / kv, *)
 (* the writes it issued so far, the injected failure, and whether an operation failed  *)
-NoTxs == [active |-> FALSE, pre |-> 0, objs |-> Objs0, kv |-> <<>>, nw |-> 0, failAt |-> 0, dead |-> FALSE]
+NoTxs == [active |-> FALSE, pre |-> 0, objs |-> Objs0, kv |-> <<>>, nw |-> 0, failAt |-> 0, fmode |-> "err", dead |-> FALSE]
 
 TrInit ==
     /\ Init /\ l = 1 /\ HWInit
@@ -82,12 +82,14 @@ Dump(m) ==
                 ELSE <<KeyStr(k), m[k], "", -1>>
     IN  [i \in DOMAIN ks |-> E(ks[i])]
 
+(* fmode "err": the k-th tx.Put/tx.Delete returns an error; fmode "panic": it panics (recovered by the driver) *)
+FaultRes(fmode) == IF fmode = "panic" THEN "panic" ELSE "err"
 ImplStep(m, op, ln) ==      \* the kv the Impl layer predicts after this line, or "reject"
     IF Rejected(m, op) # "no"
     THEN IF ln.res = Rejected(m, op) /\ ~ln.fired THEN <<m>> ELSE <<>>
     ELSE LET ws == Writes(m, op) IN
          IF ln.failAt \in 1..Len(ws)
-         THEN IF ln.res = "err" /\ ln.fired /\ ln.nw = ln.failAt THEN <<m>> ELSE <<>>
+         THEN IF ln.res = FaultRes(ln.fmode) /\ ln.fired /\ ln.nw = ln.failAt THEN <<m>> ELSE <<>>
          ELSE IF ln.failAt = -1     \* tx.Commit fails after all writes were issued
          THEN IF ln.res = "err" /\ ln.fired /\ ln.nw = Len(ws) THEN <<m>> ELSE <<>>
          ELSE IF ln.res = "ok" /\ ~ln.fired /\ (ln.nw >= 0 => ln.nw = Len(ws)) THEN <<ApplyAll(m, ws)>> ELSE <<>>
@@ -101,8 +103,9 @@ OpOK(s, op, ln, applied, ob2, r) ==
        THEN /\ rej = "no"
             /\ \/ ln.res = "ok"
                \/ ln.res = "noexist" /\ op.op = "Delete" /\ s.objs[op.id] = None
-       ELSE \/ ln.res = "err" /\ ln.fired            \* injected failure: rolled back
+       ELSE \/ ln.res \in {"err", "panic"} /\ ln.fired   \* injected error / recovered panic: rolled back
             \/ rej # "no" /\ ln.res = rej             \* rejected: nothing happened
+    /\ ~ln.leaked       \* Update returned (or panicked) with its transaction neither committed nor rolled back
     /\ ObsOK(ob2, ln)
     /\ (CheckImpl => (r # <<>> /\ ln.keys = Dump(r[1])))
 
@@ -126,7 +129,7 @@ TrTxBegin ==
     /\ IsEv("TxBegin") /\ ~txs.active
     /\ Ln.pre \in 1..Len(stack)
     /\ txs' = [active |-> TRUE, pre |-> Ln.pre, objs |-> stack[Ln.pre].objs, kv |-> stack[Ln.pre].kv,
-               nw |-> 0, failAt |-> Ln.failAt, dead |-> FALSE]
+               nw |-> 0, failAt |-> Ln.failAt, fmode |-> Ln.fmode, dead |-> FALSE]
     /\ UNCHANGED <<kv, objs, stack, cfgl>> /\ Frozen
 
 (* Impl: effect of one operation on the transaction's kv given the tx-wide write counter *)
@@ -135,7 +138,7 @@ TxImplStep(op, ln) ==
     THEN IF ln.res = Rejected(txs.kv, op) /\ ~ln.fired THEN <<txs.kv, txs.nw>> ELSE <<>>
     ELSE LET ws == Writes(txs.kv, op) IN
          IF txs.failAt \in (txs.nw + 1)..(txs.nw + Len(ws))
-         THEN IF ln.res = "err" /\ ln.fired THEN <<txs.kv, txs.failAt>> ELSE <<>>
+         THEN IF ln.res = FaultRes(txs.fmode) /\ ln.fired THEN <<txs.kv, txs.failAt>> ELSE <<>>
          ELSE IF ln.res = "ok" /\ ~ln.fired THEN <<ApplyAll(txs.kv, ws), txs.nw + Len(ws)>> ELSE <<>>
 
 (* the operation succeeded inside the transaction: GetTx of every ID and ListTx over the *)
@@ -151,7 +154,7 @@ TxOpOK(op, ln, okk, ob2, r) ==
             /\ \/ ln.res = "ok"
                \/ ln.res = "noexist" /\ op.op = "Delete" /\ txs.objs[op.id] = None
             /\ TxObsOK(ob2, ln)
-       ELSE \/ ln.res = "err" /\ ln.fired
+       ELSE \/ ln.res \in {"err", "panic"} /\ ln.fired
             \/ rej # "no" /\ ln.res = rej
     /\ (CheckImpl => r # <<>>)
 
@@ -171,8 +174,9 @@ TxEndOK(ln, committed, ob2, m2) ==
     /\ IF committed
        THEN ~txs.dead /\ ~ln.abort /\ ln.res = "ok"
        ELSE \/ txs.dead /\ ln.res # "ok"
-            \/ ~txs.dead /\ ln.abort /\ ln.res = "abort"
+            \/ ~txs.dead /\ ln.abort /\ ln.res \in {"abort", "panic"}   \* the function gave up at its end: error return or panic
             \/ ~txs.dead /\ ~ln.abort /\ ln.res = "err" /\ ln.fired     \* tx.Commit failed
+    /\ ~ln.leaked
     /\ ObsOK(ob2, ln)
     /\ (CheckImpl =>
           /\ (committed => ~ln.fired)
